@@ -85,6 +85,24 @@ def _run(F, R, ctx):
         R.inst("C17.c", "SteelThread::%s / wait loop exits on Interrupted" % nm, ok,
                "the wait loop of SteelThread::%s no longer tests ThreadState::Interrupted before parking: a thread that is "
                "interrupted while it waits at a safepoint sleeps until somebody resumes it" % nm, fn.loc(), sample=True)
+    # the poll's own parking wait: a thread parked for somebody else's stop-the-world is resumed with the pause flag still
+    # raised when an interrupt is pending (resume_from_safepoint), so its wait must leave on Interrupted as well
+    sp_ = F.one(r"^steel::steel_vm::vm::" + POLL)
+    helpers_ = lib.park_helpers(F)
+    waits_ = [helpers_[b_["callee"]] for _, b_ in sp_.calls() if b_["callee"] in helpers_]
+    if sp_.call_blocks(r"std::thread::(functions::)?park$"):
+        waits_.append(sp_)
+    for h_ in {w.name: w for w in waits_}.values():
+        ok_, _ = lib.leaves_wait_on_interrupt(F, h_)
+        R.inst("C17.c", "%s / the poll's parking wait leaves on Interrupted" % h_.short(), ok_,
+               "%s parks while the pause flag is raised and never looks at the thread state: a thread that is parked at the "
+               "instruction poll for another thread's stop-the-world when the interrupt arrives is resumed with the flag still "
+               "raised (for the interrupt), finds it raised, and parks again for good — the evaluation is never stopped (an "
+               "engine looping next to a thread that assigns globals: the watchdog's interrupt is lost within a few runs)" % h_.short(),
+               h_.loc(), sample=True)
+    R.inst("C17.c", "the instruction poll parks through a wait this rule can see", bool(waits_),
+           "safepoint_or_interrupt no longer parks (directly or through a helper that parks in a loop): anchor changed", sp_.loc(),
+           nontrivial=False)
     # ---- d
     sp = F.one(r"^steel::steel_vm::vm::" + POLL)
     reads_paused = any(e[1] == "ThreadStateController" and e[2] == "paused" for _, _, e in sp.events("fld"))
